@@ -46,8 +46,9 @@ for nid, out in res:
         if verbose and wit: print(f"      {wit[:400]}")
 print(f"{clean}/{len(res)} silent")
 # reference matrix for the thorough tier: per refactoring, "silent", "undecided" or "alarm"
-if not args:
-    mx = {}
+if True:
+    mx = json.load(open('/verif/neutral/MATRIX.json')) if args and os.path.exists('/verif/neutral/MATRIX.json') else {}
+    mx = {k: v for k, v in mx.items() if os.path.isdir('/verif/neutral/' + k)}
     for nid, out in res:
         if out is None:
             mx[nid] = "patch-does-not-apply"
